@@ -71,6 +71,12 @@ Mutations caught (private copy, README rule 6; each produced new VIOLATION signa
  M6 get_connection: `_soft_invalidate_time > starttime` reversed                         -> I1-stale-connection-handed-out
  M7 Pool._invalidate: stamp comparison reversed (pool invalidation lost)                 -> I1-stale-connection-handed-out
  M8 get_connection: recycle without `__close()`                                          -> Q2-connection-leaked
+ M9 __connect: `starttime` stamped after the creator call                                -> I1-stale-connection-handed-out
+    (only the "pool invalidated / recycle time passes during connect()" operations expose it)
+ M10 Pool._invalidate: no stamp when the disconnect is reported without a record          -> I1-stale-connection-handed-out
+ M11 get_connection: starttime refreshed after a recycle decision                         -> I1-stale-connection-handed-out
+("soft invalidate during connect()" cannot be expressed: while the creator runs the record has no connection and
+``invalidate(soft=True)`` returns at once; at ``connect``-event time either stamping order precedes it.)
 """
 from __future__ import annotations
 
@@ -666,8 +672,24 @@ def canon(w, m2):
     counters = ()
     if isinstance(p, sa_pool.QueuePool):
         counters = (p.checkedin(), p.checkedout(), p.overflow())
-    # relative order of the pool's invalidation stamp and the youngest idle connection decides future recycling
-    inval = getattr(p, "_invalidate_time", 0) > 0
+    # private bookkeeping, for the canonical key only (never consulted by the oracle): what a later checkout consults
+    it = getattr(p, "_invalidate_time", 0)
+
+    def recflags(r):
+        if r is None:
+            return None
+        return (r.dbapi_connection is None, bool(r.fresh), r.starttime < it, r._soft_invalidate_time > r.starttime,
+                len(r.finalize_callback), r.fairy_ref is not None)
+
+    hidden = []
+    q = getattr(getattr(p, "_pool", None), "queue", None)
+    if q is not None:
+        hidden.append(tuple(recflags(r) for r in q))
+    if "connection" in p.__dict__:
+        hidden.append(recflags(p.__dict__["connection"]))
+    hidden.append(tuple(recflags(getattr(f, "_connection_record", None)) if f is not None else None for f in w.holders))
+    counters = counters + (tuple(hidden),)
+    inval = it > 0
     return (w.cfg, len(w.pools) > 1, m2.holders, conns, counters, inval, m2.nfaults, m2.spoiled, m2.exited,
             tuple(sorted(m2.iso)), m2.charerr)
 
